@@ -193,7 +193,7 @@ def random_history(rnd: random.Random, prop: str, length: int) -> tuple[dict, li
             if it == 0:
                 pl = rnd.choice(["57", "0", "100", "7.6", "99.4", "12"] + (["abc", "", "150", "-3", "nan"] if prop == "C03" else []))
             elif it == 22:
-                pl = rnd.choice(["1", "1111", "0", "300000"] + (["x", ""] if prop == "C03" else []))
+                pl = rnd.choice(["1", "1111", "0", "300000"] + (["x", ""] if prop in ("C03", "C04") else []))
             elif it == 2:
                 pl = rnd.choice(VERSIONS + (["garbage", ""] if prop in ("C03", "C05") else []))
             nn = 0 if it in (2, 9, 14) else (255 if it == 3 and rnd.random() < 0.7 else n)
